@@ -3,11 +3,13 @@ package multi
 import (
 	"bufio"
 	"bytes"
+	"context"
 	"fmt"
 	"io"
 	"net"
 	"net/http"
 	"net/url"
+	"time"
 
 	"github.com/gobwas/httphead"
 	"github.com/gobwas/pool/pbytes"
@@ -58,7 +60,8 @@ type script struct {
 	Protocols []string
 	Steps     []exchange
 	CloseCode int
-	CloseKind int // 0 short reason, 1 long reason, 2 invalid code with a long reason, 3 invalid UTF-8 in a long reason
+	CloseKind int  // 0 short reason, 1 long reason, 2 invalid code with a long reason, 3 invalid UTF-8 in a long reason, 4 no reason
+	WSS       bool // the client first probes a wss:// dial through the default TLS client (the peer never answers)
 }
 
 var sizes = []int{0, 1, 10, 60, 65, 100, 125, 126, 127, 128, 200, 300, 1000, 4096, 5000, 70000}
@@ -91,7 +94,8 @@ func makeScript(seed uint64) *script {
 		sc.Steps = append(sc.Steps, ex)
 	}
 	sc.CloseCode = []int{1000, 1001, 3000, 4000}[p.intn(4)]
-	sc.CloseKind = p.intn(4)
+	sc.CloseKind = p.intn(5)
+	sc.WSS = p.intn(3) == 0
 	return sc
 }
 
@@ -160,6 +164,76 @@ func flateCompressor(w io.Writer) wsflate.Compressor {
 	return wsflate.DefaultHelper.Compressor(w)
 }
 
+// helloConn records what is written and never answers.
+type helloConn struct {
+	out []byte
+}
+
+func (c *helloConn) Write(p []byte) (int, error) {
+	c.out = append(c.out, p...)
+	PoolYield()
+	return len(p), nil
+}
+func (c *helloConn) Read(p []byte) (int, error)       { PoolYield(); return 0, io.EOF }
+func (c *helloConn) Close() error                     { return nil }
+func (c *helloConn) LocalAddr() net.Addr              { return addr{} }
+func (c *helloConn) RemoteAddr() net.Addr             { return addr{} }
+func (c *helloConn) SetDeadline(time.Time) error      { return nil }
+func (c *helloConn) SetReadDeadline(time.Time) error  { return nil }
+func (c *helloConn) SetWriteDeadline(time.Time) error { return nil }
+
+// sniOf extracts the server_name of a TLS ClientHello record.
+func sniOf(b []byte) string {
+	if len(b) < 5+4+2+32+1 || b[0] != 0x16 || b[5] != 0x01 {
+		return "?not-a-client-hello"
+	}
+	p := b[5+4+2+32:]
+	skip := func(lenBytes int) bool {
+		if len(p) < lenBytes {
+			return false
+		}
+		n := 0
+		for i := 0; i < lenBytes; i++ {
+			n = n<<8 | int(p[i])
+		}
+		if len(p) < lenBytes+n {
+			return false
+		}
+		p = p[lenBytes+n:]
+		return true
+	}
+	if !skip(1) || !skip(2) || !skip(1) || len(p) < 2 {
+		return "?short"
+	}
+	p = p[2:]
+	for len(p) >= 4 {
+		typ, n := int(p[0])<<8|int(p[1]), int(p[2])<<8|int(p[3])
+		if len(p) < 4+n {
+			break
+		}
+		if typ == 0 && n >= 5 {
+			l := int(p[4+3])<<8 | int(p[4+4])
+			if 4+5+l <= len(p) {
+				return string(p[4+5 : 4+5+l])
+			}
+		}
+		p = p[4+n:]
+	}
+	return ""
+}
+
+// wssProbe dials wss://<own host> with the default TLS client (no TLSConfig,
+// no TLSClient) over a transport that records the ClientHello and then ends:
+// the server name sent must be this session's host, whatever other sessions
+// dialed before or meanwhile.
+func wssProbe(sc *script, tr *transcript) {
+	host := fmt.Sprintf("host-%d.example", sc.Seed%100000)
+	hc := &helloConn{}
+	d := ws.Dialer{NetDial: func(ctx context.Context, network, addr string) (net.Conn, error) { return hc, nil }}
+	_, _, _, err := d.Dial(context.Background(), "wss://"+host+"/")
+	tr.add("wss probe: dialed %s, ClientHello server_name=%q, failed=%v", host, sniOf(hc.out), err != nil)
+}
+
 // SharedFlateDialer is rebuilt by the driver before every run.
 var SharedFlateDialer *ws.Dialer
 
@@ -174,6 +248,9 @@ func NewSharedDialer() *ws.Dialer {
 // runClient is the client task of a session.
 func runClient(sc *script, conn net.Conn, tr *transcript) {
 	s := &side{sc: sc, conn: conn, client: true, tr: tr, state: ws.StateClientSide}
+	if sc.WSS {
+		wssProbe(sc, tr)
+	}
 	d := ws.Dialer{Protocols: sc.Protocols}
 	if sc.Flate {
 		// Like an application would: one configured Dialer value (and its
@@ -327,6 +404,11 @@ func (s *side) run() {
 			code, reason = 1005, string(bytes.Repeat([]byte("x"), 61+int(s.sc.Seed%60)))
 		case 3:
 			reason = string(bytes.Repeat([]byte("y"), 80)) + "\xff\xfe"
+		case 4:
+			reason = ""
+			if code > 1001 {
+				code = 1000
+			}
 		}
 		f := ws.NewCloseFrame(ws.NewCloseFrameBody(code, reason))
 		f = ws.MaskFrameInPlace(f)
